@@ -945,6 +945,12 @@ func (x *Exec) fieldmapKey(l *cxCall) string {
 		if id, ok := s.X.(*cxIdent); ok {
 			return x.unit.Pkg.Name + "." + id.Name + "." + s.Sel
 		}
+		// fieldmap(pkg.Type.field), e.g. ast.ForStmt.Init
+		if s2, ok := s.X.(*cxSel); ok {
+			if id, ok := s2.X.(*cxIdent); ok {
+				return id.Name + "." + s2.Sel + "." + s.Sel
+			}
+		}
 	}
 	return ""
 }
